@@ -136,6 +136,8 @@ package allocator
 //@   ensures Inv(a)
 //@   ensures a.allocated[svc] == alloc
 //@   ensures forall s string :: s != svc ==> a.allocated[s] == old(a.allocated[s])
+//@   ensures [poolsSame] a.pools == old(a.pools) && (forall n string :: (n in a.pools.ByName) == old(n in a.pools.ByName) && a.pools.ByName[n] == old(a.pools.ByName[n]))
+//@   loop 1 invariant forall n string :: (n in a.pools.ByName) == old(n in a.pools.ByName) && a.pools.ByName[n] == old(a.pools.ByName[n])
 //@   loop 1 invariant a.allocated[svc] == alloc && alloc == old(alloc) && svc == old(svc)
 //@   loop 1 invariant forall s string :: s != svc ==> a.allocated[s] == old(a.allocated[s])
 //@   loop 1 invariant InvMaps(a)
@@ -164,6 +166,9 @@ package allocator
 //@   assert before len#1: [svcNowhere] forall x string :: !(svc in a.servicesOnIP[x])
 //@   assert before len#1: [entryOwns] forall in bool, cur *alloc, s string, x string, p Port :: cur != nil ==> OwnsPortA(in, cur, s, p) == OwnsPortG(in, cur, false, "", nil, 0, 0, s, x, p)
 //@   assert before len#1: [entryDone] forall x string, p Port :: !DonePort(alloc, 0, 0, x, p)
+//@   assert before len#1: [ownAFalse] forall cur *alloc, s string, p Port :: !OwnsPortA(false, cur, s, p)
+//@   assert before len#1: [holderNonNil] forall x string, s string :: (s in a.servicesOnIP[x]) ==> s != svc && a.allocated[s] != nil
+//@   assert before len#1: [entryPorts1] forall x string, s string, p Port :: OwnsPortA(s in a.servicesOnIP[x], a.allocated[s], s, p) ==> (p in a.portsInUse[x]) && a.portsInUse[x][p] == s
 //@   assert before len#1: [entryPorts] InvPortsA(a, true, svc, alloc, 0, 0)
 //@   assert before To4#1: [hasIPHere] HasIP(alloc, net.ipstr(ip))
 //@   assert before To4#1: [keyHere] a.sharingKeyForIP[net.ipstr(ip)] == &alloc.key && (net.ipstr(ip) in a.portsInUse) && (svc in a.servicesOnIP[net.ipstr(ip)])
@@ -259,3 +264,88 @@ package allocator
 //@   assert before updatePoolStats: [holdsEnd2] forall cur *alloc, s string, x string :: (cur != nil || s != svc) ==> HoldsG(cur, false, "", nil, 0, s, x) == HoldsG(cur, true, svc, al, len(al.ips), s, x)
 //@   assert before updatePoolStats: [svcGone2] forall x string :: !(svc in a.servicesOnIP[x])
 //@   assert before updatePoolStats: [ownEnd2] forall in bool, cur *alloc, s string, x string, p Port :: s != svc ==> OwnsPortG(in, cur, false, "", nil, 0, 0, s, x, p) == OwnsPortG(in, cur, true, svc, al, len(al.ips), 0, s, x, p)
+
+// ---- C01: exclusivity follows from the invariant ----
+//@ pred Holds(a *Allocator, s string, x string) := a.allocated[s] != nil && HasIP(a.allocated[s], x)
+// CompatRecs: the two records may share an address: same non-empty sharing key, same backend key, disjoint ports.
+//@ pred CompatRecs(r1 *alloc, r2 *alloc) := r1.sharing == r2.sharing && r1.sharing != "" && r1.backend == r2.backend
+//@     && (forall p Port :: !(HasPort(r1, p) && HasPort(r2, p)))
+// stepping stones (each lemma may use the ones before it)
+//@ lemma C01.holdsRecorded: forall a *Allocator, x string, s string :: Inv(a) && Holds(a, s, x) ==> (s in a.servicesOnIP[x])
+//@ lemma C01.sameKey: forall a *Allocator, x string, s1 string, s2 string ::
+//@     Inv(a) && s1 != s2 && (s1 in a.servicesOnIP[x]) && (s2 in a.servicesOnIP[x]) ==>
+//@         a.allocated[s1].sharing == a.allocated[s2].sharing && a.allocated[s1].sharing != "" && a.allocated[s1].backend == a.allocated[s2].backend
+//@ lemma C01.portOwner: forall a *Allocator, x string, s string, p Port ::
+//@     Inv(a) && (s in a.servicesOnIP[x]) && HasPort(a.allocated[s], p) ==> a.portsInUse[x][p] == s
+//@ lemma C01.exclusive: forall a *Allocator, x string, s1 string, s2 string ::
+//@     Inv(a) && s1 != s2 && Holds(a, s1, x) && Holds(a, s2, x) ==> CompatRecs(a.allocated[s1], a.allocated[s2])
+
+//@ func New
+//@   ensures result != nil && fresh(result) && Inv(result) && result.countersChangedCallback == countersCallback
+//@   ensures forall s string :: result.allocated[s] == nil
+
+// ---- C02: pool membership and pool policy ----
+// InCIDRs: some CIDR of the pool contains ip.
+//@ pred InCIDRs(p *config.Pool, ip net.IP) := exists c int :: 0 <= c && c < len(p.CIDR) && net.NetContains(*p.CIDR[c], ip)
+// InPool: ip is an address of pool p that the pool may hand out.
+//@ pred InPool(p *config.Pool, ip net.IP) := InCIDRs(p, ip) && !(p.AvoidBuggyIPs && Buggy(ip))
+//@ pred AllInPool(p *config.Pool, ips []net.IP) := forall k int :: 0 <= k && k < len(ips) ==> InPool(p, ips[k])
+// PoolsOK: data invariant of the configured pools (established by the config parser).
+//@ pred PoolsOK(pools map[string]*config.Pool) := forall n string :: n in pools ==> pools[n] != nil && PoolCIDRsOK(pools[n])
+
+//@ func poolFor
+//@   requires PoolsOK(pools)
+//@   ensures result != nil ==> (exists n string :: n in pools && pools[n] == result) && AllInPool(result, ips)
+//@   ensures result == nil ==> (forall n string :: n in pools ==> !AllInPool(pools[n], ips))
+//@   modifies nothing
+//@   loop 1 invariant forall n string :: n in visited ==> n in pools && !AllInPool(pools[n], ips)
+//@   loop 2 invariant p != nil && PoolCIDRsOK(p) && 0 <= cnt && cnt <= iter && ((cnt == iter) == (forall k int :: 0 <= k && k < iter ==> InPool(p, ips[k])))
+//@   loop 3 invariant p != nil && PoolCIDRsOK(p) && 0 <= idx(2) && idx(2) < len(ips) && ip == ips[idx(2)]
+//@   loop 3 invariant forall c int :: 0 <= c && c < iter ==> !net.NetContains(*p.CIDR[c], ip)
+
+// PoolAdmits: the pool's namespace set and service selectors admit the Service (no restriction when unset).
+//@ pred SelectorsAdmit(p *config.Pool, svc *v1.Service) :=
+//@     exists i int :: 0 <= i && i < len(p.ServiceAllocations.ServiceSelectors) && p.ServiceAllocations.ServiceSelectors[i].Matches(labels.Set(svc.Labels))
+//@ pred PoolAdmits(p *config.Pool, svc *v1.Service) :=
+//@     p.ServiceAllocations == nil ||
+//@     ((len(p.ServiceAllocations.Namespaces) == 0 || svc.Namespace in p.ServiceAllocations.Namespaces) &&
+//@      (len(p.ServiceAllocations.ServiceSelectors) == 0 || SelectorsAdmit(p, svc)))
+
+//@ func (*Allocator).isPoolCompatibleWithService
+//@   requires p != nil && svc != nil
+//@   ensures result == PoolAdmits(p, svc)
+//@   modifies nothing
+//@   loop 1 invariant forall i int :: 0 <= i && i < iter ==> !p.ServiceAllocations.ServiceSelectors[i].Matches(labels.Set(svc.Labels))
+
+// ---- Assign ----
+// PoolsKeyedOK: every pool is stored under its own name and is well formed.
+//@ pred PoolsKeyedOK(pools map[string]*config.Pool) := PoolsOK(pools) && (forall n string :: n in pools ==> pools[n].Name == n)
+//@ pred PortsOK(ports []Port) := len(ports) >= 1 && (forall m int, n int :: 0 <= m && m < n && n < len(ports) ==> ports[m] != ports[n])
+// RecordIs: the record made for a successful Assign.
+//@ pred RecordIs(r *alloc, ips []net.IP, ports []Port, sharingKey string, backendKey string) :=
+//@     r != nil && sameSlice(r.ips, ips) && r.sharing == sharingKey && r.backend == backendKey
+//@     && len(r.ports) == len(ports) && (forall k int :: 0 <= k && k < len(ports) ==> r.ports[k] == ports[k])
+
+//@ func (*Allocator).Assign
+//@   requires Inv(a) && a.countersChangedCallback != nil && svc != nil && PoolsKeyedOK(a.pools.ByName) && PortsOK(ports) && len(ips) >= 1
+//@   ensures Inv(a)
+//@   ensures [unchangedOnError] result != nil ==> (forall s string :: a.allocated[s] == old(a.allocated[s]))
+//@   ensures [others] forall s string :: s != svcKey ==> a.allocated[s] == old(a.allocated[s])
+//@   ensures [record] result == nil ==> RecordIs(a.allocated[svcKey], ips, ports, sharingKey, backendKey) && fresh(a.allocated[svcKey])
+//@   ensures [pool] result == nil ==> (a.allocated[svcKey].pool in a.pools.ByName) && AllInPool(a.pools.ByName[a.allocated[svcKey].pool], ips)
+//@       && PoolAdmits(a.pools.ByName[a.allocated[svcKey].pool], svc)
+//@   ensures [families] result == nil ==> len(ips) <= 2 && (len(ips) == 2 ==> net.is4(ips[0]) != net.is4(ips[1]))
+//@   ensures [poolsSame] a.pools == old(a.pools) && (forall n string :: (n in a.pools.ByName) == old(n in a.pools.ByName) && a.pools.ByName[n] == old(a.pools.ByName[n]))
+//@   loop 1 invariant sk != nil && fresh(sk) && sk.sharing == sharingKey && sk.backend == backendKey && pool != nil
+//@   loop 1 invariant forall k int :: 0 <= k && k < iter ==> Sharable(a, svcKey, net.ipstr(ips[k]), ports, sk)
+//@   loop 1 invariant Inv(a) && (forall s string :: a.allocated[s] == old(a.allocated[s]))
+//@   loop 1 invariant forall n string :: (n in a.pools.ByName) == old(n in a.pools.ByName) && a.pools.ByName[n] == old(a.pools.ByName[n])
+//@   assert before assign: [wf] WFAlloc(alloc)
+//@   assert before assign: [poolIn] alloc.pool in a.pools.ByName
+//@   assert before assign: [noAlias] forall s string :: a.allocated[s] != alloc
+//@   assert before assign: [hasip] forall x string :: HasIP(alloc, x) ==> (exists k int :: 0 <= k && k < len(ips) && net.ipstr(ips[k]) == x)
+//@   assert before assign: [hasport] forall p Port :: HasPort(alloc, p) ==> (exists m int :: 0 <= m && m < len(ports) && ports[m] == p)
+//@   assert before assign: [keyOfHolder] forall x string, s string :: (s in a.servicesOnIP[x]) ==>
+//@       a.sharingKeyForIP[x] != nil && a.sharingKeyForIP[x].sharing == a.allocated[s].sharing && a.sharingKeyForIP[x].backend == a.allocated[s].backend
+//@   assert before assign: [portOfHolder] forall x string, s string, p Port :: (s in a.servicesOnIP[x]) && HasPort(a.allocated[s], p) ==> (p in a.portsInUse[x]) && a.portsInUse[x][p] == s
+//@   assert before assign: [safe] SafeFor(a, svcKey, alloc)
